@@ -124,7 +124,7 @@ PROJECTIONS = {
     "feemult": proj_by_op({"seal": ("fm",), "fm": ("all",), "next": ("fm",), "block": ("fm",)}, default=("none",)),
     "coins_after_batch": proj_by_op({"batch": ("coins", "extra"), "genesis": ("coins",), "fab": ("coins",)}, default=("none",)),
     "batch_all": proj_by_op({"batch": ("coins", "counts", "extra", "fp", "tips", "fm", "ds", "stakes", "txs"), "block": ("status",)}, default=("none",)),
-    "fees": proj_by_op({"batch": ("fp", "tips"), "seal": ("fp", "tips", "coins")}, default=("none",)),
+    "fees": proj_by_op({"batch": ("fp", "tips"), "seal": ("fp", "tips", "coins"), "w": ("all",)}, default=("none",)),
     "settlement": proj_by_op({"seal": ("coins", "pools", "pools_n")}, default=("none",)),
     "pools": proj_by_op({"seal": ("pools", "pools_n"), "next": ("pools", "pools_n")}, default=("none",)),
     "stakes": proj_by_op({"batch": ("stakes",), "next": ("stakes",), "block": ("stakes",)}, default=("none",)),
@@ -701,9 +701,18 @@ def oracle_faucet(ops, impl, model):
 def oracle_panics(ops, impl, model):
     """C09: applying and sealing never panic"""
     out = []
+    ctx = {}
+    for i, kind, t, pre, post, st, txs, orc in walk(ops, impl):
+        if kind == "seal":
+            liq = set(orc.get("l", {}).values())
+            minted = any(x is not None and x["kind"] == K_FAUCET and any(o["denom"] in liq for o in x["outputs"]) for x in txs)
+            held = pre is not None and any(c["denom"] in liq for c in coins_dict(pre).values())
+            ctx[i] = "yes" if (minted or held) else "no"
     for i, (o, a) in enumerate(zip(ops, impl)):
         if a.split(" ")[0] in ("panic", "abort", "timeout"):
-            out.append({"line": i, "op": o[:3000], "detail": "the implementation panicked", "opkind": o.split(" ")[0], "impl": a})
+            m = model[i].split(" ")[0] if i < len(model) else "?"
+            out.append({"line": i, "op": o[:3000], "detail": "the implementation panicked", "opkind": o.split(" ")[0], "impl": a,
+                        "model_status": m, "liq_tokens_in_play": ctx.get(i, "n/a")})
     return out
 
 
@@ -717,7 +726,15 @@ def tip902(net, h):
 def oracle_pools(ops, impl, model):
     """C16: after every seal the builtin pools exist with reserves; liquidity tokens in coins never exceed pool.liqs"""
     out = []
+    faucet_minted = set()      # liquidity-token denominations a faucet has minted in this history (K-faucet-liq)
     for i, kind, t, pre, post, st, txs, orc in walk(ops, impl):
+        if kind in ("fab", "genesis"):
+            faucet_minted = set()
+        if kind in ("batch", "block") and post is not None:
+            for x in txs:
+                if x is not None and x["kind"] == K_FAUCET:
+                    for o in x["outputs"]:
+                        faucet_minted.add(o["denom"])
         if kind != "seal" or post is None:
             continue
         net, h = int(post["net"]), int(post["h"])
@@ -738,6 +755,7 @@ def oracle_pools(ops, impl, model):
                 p = pools.get(kb)
                 if p is None or held[den] > p[3]:
                     out.append({"line": i, "op": " ".join(t)[:600], "opkind": "seal", "pool": kb[-8:],
+                                "faucet_minted": "yes" if den in faucet_minted else "no",
                                 "detail": "liquidity tokens held (%d) exceed the pool's recorded liquidity (%s)" % (held[den], None if p is None else p[3])})
     return out
 
